@@ -1,6 +1,8 @@
 use std::collections::HashMap;
 
-use crate::ast::{Choice, Condition, Expression, Flow, Node, ParsedStory};
+use crate::ast::{
+    Choice, Condition, DynamicString, DynamicStringPart, Expression, Flow, Node, ParsedStory,
+};
 
 pub(crate) fn resolve(mut story: ParsedStory) -> ParsedStory {
     if story.consts.is_empty() {
@@ -66,7 +68,27 @@ fn resolve_nodes(nodes: &mut [Node], consts: &HashMap<String, Expression>) {
                     resolve_nodes(branch, consts);
                 }
             }
+            Node::Divert(divert) | Node::ThreadDivert(divert) => {
+                for argument in &mut divert.arguments {
+                    resolve_expression(argument, consts);
+                }
+            }
+            Node::Tag(tag) => resolve_dynamic_string(tag, consts),
             _ => {}
+        }
+    }
+}
+
+fn resolve_dynamic_string(string: &mut DynamicString, consts: &HashMap<String, Expression>) {
+    for part in &mut string.parts {
+        match part {
+            DynamicStringPart::Expression(expression) => resolve_expression(expression, consts),
+            DynamicStringPart::Sequence(sequence) => {
+                for branch in &mut sequence.branches {
+                    resolve_nodes(branch, consts);
+                }
+            }
+            DynamicStringPart::Text(_) => {}
         }
     }
 }
@@ -82,6 +104,14 @@ fn resolve_choice(choice: &mut Choice, consts: &HashMap<String, Expression>) {
         resolve_condition(condition, consts);
     }
     resolve_nodes(&mut choice.body, consts);
+    for tag in choice
+        .start_tags
+        .iter_mut()
+        .chain(choice.choice_only_tags.iter_mut())
+        .chain(choice.selected_tags.iter_mut())
+    {
+        resolve_dynamic_string(tag, consts);
+    }
 }
 
 fn resolve_expression(expression: &mut Expression, consts: &HashMap<String, Expression>) {
